@@ -40,7 +40,7 @@ def classify_e1(e: dict[str, Any]) -> str:
 def run(ctx: common.Ctx) -> None:
     quick = ctx.tier == "quick"
     scale = float(os.environ.get("VERIF_SCALE", "1"))
-    n_gen, n_mut, n_corpus = (int(500 * scale), 3, int(1500 * scale)) if quick else (int(12000 * scale), 5, int(8000 * scale))
+    n_gen, n_mut, n_corpus = (int(500 * scale), 3, int(1500 * scale)) if quick else (int(3000 * scale), 5, int(5000 * scale))
     ctx.rule = ("typedgen programs (typed by construction: classes+inheritance, generics, unions/Optional, literals, tuples, containers, "
                 "callables, protocols, dataclasses, enums, NamedTuple; if/for/while/try/match; all narrowing forms on locals) with "
                 "generated drivers, their single-edit ill-typed perturbations that mypy still accepts, and corpus programs inside the "
